@@ -180,9 +180,9 @@ def gen(rng, tier):
             t = F(1, 10 ** prec)
             # a difference of exactly the value the code compares with (strict `<`: unequal)
             B = clone(A); B['kv'][0][3] += tol_value(prec)
-            out.append(mk_case(A, B, 'knot', dict(delta=tol_value(prec)), tags=('tol-probe', 'exact')))
+            out.append(mk_case(A, B, 'knot', dict(delta=tol_value(prec)), tags=('tol-probe', 'exact', 'diagnostic')))
             B = clone(A); B['P'][1][0] -= tol_value(prec)
-            out.append(mk_case(A, B, 'net', dict(delta=-tol_value(prec)), tags=('tol-probe', 'exact')))
+            out.append(mk_case(A, B, 'net', dict(delta=-tol_value(prec)), tags=('tol-probe', 'exact', 'diagnostic')))
             for mul in (F(1, 2), F(2)):
                 B = clone(A); B['P'][1][0] += mul * t
                 out.append(mk_case(A, B, 'net', dict(delta=mul * t), tags=('tol-probe',)))
